@@ -23,7 +23,7 @@ def srcWFB (fs : FS) (S : Path) : Bool :=
 /-- both file systems are the same finite map -/
 def fsEq (a b : FS) : Bool := (a.files ++ b.files).all fun e => a.read e.1 == b.read e.1
 
-def isStylesheetKV (s : KVs) : Bool := alookup kRel s == some vStylesheet
+def isStylesheetKV (s : KVs) : Bool := alookup dtKRel s == some vStylesheet
 
 /-! ### percent-encoding (C12_quote_roundtrip_str, C12_quote_inert) -/
 
@@ -68,7 +68,7 @@ def holdsUrlList (d : DepInfo) (lp : Option Str) (iv : Bool) (k : Str) (orig out
     | _, _ => false
 
 def holdsDict (d : DepInfo) (lp : Option Str) (iv : Bool) (scripts sheets : List KVs) : Bool :=
-  holdsUrlList d lp iv kSrc d.script scripts && holdsUrlList d lp iv kHref d.stylesheet sheets
+  holdsUrlList d lp iv dtKSrc d.script scripts && holdsUrlList d lp iv dtKHref d.stylesheet sheets
     && sheets.all isStylesheetKV
 
 /-- the `link` / `script` tags of `as_html_tags` carry the same URLs (as plain, i.e. later escaped, attribute values) -/
@@ -88,7 +88,7 @@ def holdsTags (d : DepInfo) (lp : Option Str) (iv : Bool) (tags : Nodes) : Bool 
         if (s.filter fun kv => normAttrName kv.1 == k).length == 1 then holdsUrl d lp iv p u else true
       | some _, _ => (s.filter fun kv => normAttrName kv.1 == k).length != 1
       | none, _ => false
-  ok kHref d.stylesheet (attrOf nLink kHref) && ok kSrc d.script (attrOf nScript kSrc)
+  ok dtKHref d.stylesheet (attrOf nLink dtKHref) && ok dtKSrc d.script (attrOf nScript dtKSrc)
 
 /-! ### copy_to (C12_copy_ok, C12_copy_ok_all, C12_copy_missing, C12_copy_keyerror, C12_no_copy) -/
 
@@ -117,7 +117,7 @@ inductive Readiness
 def readiness (d : DepInfo) (path : Str) (iv : Bool) (fs : FS) : Readiness :=
   match d.source with
   | .subdir _ _ abs =>
-    let S := resolve abs
+    let S := pathResolve abs
     let T := tgtDir d path iv
     if abs.isEmpty || !apartB S T then .outside
     else if d.allFiles then
@@ -154,12 +154,12 @@ def saveGuards (deps : List DepInfo) (fileAbs : Str) (libdir : Option Str) (iv :
     && ls.all (fun d => SafeSeg (dirName d iv))
     && decide ((deps.map fun d => dirName d iv).Nodup)
     && ls.all (fun a => ls.all fun b => apartB (srcDir a) (tgtDir b dest iv))
-    && ls.all (fun d => apartB (resolve fileAbs) (tgtDir d dest iv))
-    && !fs.isDir (resolve fileAbs) && !fs.fileOnPath (resolve fileAbs).dropLast
+    && ls.all (fun d => apartB (pathResolve fileAbs) (tgtDir d dest iv))
+    && !fs.isDir (pathResolve fileAbs) && !fs.fileOnPath (pathResolve fileAbs).dropLast
 
 /-- the listed paths of a dependency in document order (stylesheets, then scripts) -/
 def listedInOrder (d : DepInfo) : List Str :=
-  d.stylesheet.filterMap (alookup kHref) ++ d.script.filterMap (alookup kSrc)
+  d.stylesheet.filterMap (alookup dtKHref) ++ d.script.filterMap (alookup dtKSrc)
 
 /-- every URL the theorems predict occurs in the file, and resolves to a byte-identical copy -/
 def urlsOk (d : DepInfo) (fileAbs : Str) (libdir : Option Str) (iv : Bool) (urls : List Str) (fs0 fs' : FS) : Bool :=
@@ -171,8 +171,8 @@ def urlsOk (d : DepInfo) (fileAbs : Str) (libdir : Option Str) (iv : Bool) (urls
       (if isLocal d then
         relRefOk u &&
         (!wantedB d (segs (utf8 p)) ||
-          (fs'.read (resolveRef (resolve (dirname fileAbs)) u) == fs0.read (srcDir d ++ segs (utf8 p))
-            && (d.allFiles || (fs'.read (resolveRef (resolve (dirname fileAbs)) u)).isSome)))
+          (fs'.read (resolveRef (pathResolve (dirname fileAbs)) u) == fs0.read (srcDir d ++ segs (utf8 p))
+            && (d.allFiles || (fs'.read (resolveRef (pathResolve (dirname fileAbs)) u)).isSome)))
       else true)
 
 def isOk (status : Except Err Str) (v : Str) : Bool :=
@@ -189,7 +189,7 @@ def holdsSave (deps : List DepInfo) (file fileAbs : Str) (libdir : Option Str) (
     (status : Except Err Str) (urls : List Str) (fs' : FS) : Bool :=
   if !saveGuards deps fileAbs libdir iv fs0 then true else
   let dest := destDir fileAbs libdir
-  let F := resolve fileAbs
+  let F := pathResolve fileAbs
   let rs := deps.map fun d => (d, readiness d dest iv fs0)
   if rs.any (fun x => x.2 == .outside) then true else
   -- dependencies up to the first one that cannot be copied
@@ -233,7 +233,7 @@ def classSave (deps : List DepInfo) (fileAbs : Str) (libdir : Option Str) (iv : 
     | r :: _ => "fails:" ++ r.name
 
 def classUrl (d : DepInfo) (lp : Option Str) (iv : Bool) : String :=
-  let ps := d.stylesheet.filterMap (alookup kHref) ++ d.script.filterMap (alookup kSrc)
+  let ps := d.stylesheet.filterMap (alookup dtKHref) ++ d.script.filterMap (alookup dtKSrc)
   let closed := (ps.filter fun p => (closedUrl d lp iv p).isSome).length
   let agree := (ps.filter fun p => isLocal d && SafeSeg (dirName d iv) && CleanRel p && CleanDirOpt lp).length
   s!"{ps.length} {closed} {agree}"
